@@ -964,6 +964,24 @@ impl Session {
     }
 }
 
+/// Verification hooks (feature `verif`, C02): the receive timeout of an exchange on this session
+/// and the advertised MRP parameters of the peer that pace it.
+#[cfg(feature = "verif")]
+impl Session {
+    pub fn verif_rx_timeout_ms(&self, local_active_interval_ms: u32) -> u64 {
+        self.rx_timeout_ms(local_active_interval_ms)
+    }
+
+    /// `(peer active interval, peer idle interval, peer active threshold)`
+    pub fn verif_peer_mrp(&self) -> (u32, u32, u16) {
+        (
+            self.peer_active_interval_ms,
+            self.peer_idle_interval_ms,
+            self.peer_active_threshold_ms,
+        )
+    }
+}
+
 /// Verification hooks (feature `verif`): transport-model accessors (C09/C10/C15/C20).
 #[cfg(feature = "verif")]
 impl Session {
